@@ -82,6 +82,7 @@ fn leak(s: &str) -> &'static str {
         "C13" => "C13",
         "C18" => "C18",
         "C20" => "C20",
+        "C19" => "C19",
         _ => "?",
     }
 }
@@ -162,6 +163,25 @@ pub fn check_case(acc: &mut Acc, prop: &str, c: &GraphCase, cfg: &HxCfg, all_ord
         acc.nontrivial += 1;
         let mut counters: BTreeMap<&'static str, u64> = BTreeMap::new();
         match prop {
+            "C19" => {
+                // run-to-run (fresh hash seeds) and across configurations: every observable, incl.
+                // every slice with the grouping of its vertices, must be identical
+                let base = probes::trace_of::<N>(c.cap, &c.ops);
+                acc.evaluations += 4;
+                let mut fs = vec![];
+                for round in 0..2 {
+                    if probes::trace_of::<N>(c.cap, &c.ops) != base {
+                        fs.push(Finding::new("rerun-differs", &["C19"], format!("building the same graph again (round {}) gives a different answer", round + 2)));
+                        break;
+                    }
+                }
+                let other = probes::trace_of::<16>(256.max(c.cap), &c.ops);
+                if fs.is_empty() && other != base {
+                    fs.push(Finding::new("configuration-changes-answer", &["C19"], format!("Sodg<{}> with capacity {} and Sodg<16> with capacity 256 answer differently", c.n, c.cap)));
+                }
+                let _ = (&g, &m);
+                report(acc, prop, c, fs);
+            }
             "C13" => slices_all_subsets(acc, c, &g, &m, all_orders),
             "C18" => {
                 let mut fs = vec![];
@@ -239,8 +259,10 @@ pub fn run(prop: &'static str, tier: &str) -> (Acc, String) {
     let quick = crate::props::quick(tier);
     let nmax: usize = if quick { 3 } else { 4 };
     let mut cases: Vec<GraphCase> = vec![];
+    let nmax = if prop == "C19" { 4 } else { nmax };
     for n in 1..=nmax {
-        let l = 2usize;
+        // C19: 4 vertices are needed for two groups to form in one slice; quick uses one label there
+        let l = if prop == "C19" && n == 4 && quick { 1usize } else { 2usize };
         let total = n.pow((l * n) as u32);
         for code in 0..total {
             for rev in [false, true] {
@@ -280,6 +302,7 @@ pub fn run(prop: &'static str, tier: &str) -> (Acc, String) {
         small,
         match prop {
             "C13" => "; for every start vertex: slice() and slice_some() with EVERY subset of the edge set as predicate, under EVERY drain order of slice's work-list (enumerated through the verif choice-point hook); plus wide shapes on Sodg<16> (chains, cycles, stars, bipartite graphs on 12-14 vertices, fans of 1..=16 labelled edges onto 1, 2 or 13 targets)",
+            "C19" => "; each graph is built three times in fresh objects (fresh hash seeds) and once as Sodg<16> with capacity 256: every public observable, incl. every slice with the grouping of its vertices as Debug shows it, must be identical",
             "C18" => "; with every placement of {no data, 1 byte, 9 bytes (heap), empty datum} (n <= 3); to_xml()/to_dot() parsed back and compared with the graph, and all graphs with equal content must give equal text",
             _ => "; inspect(v) for every vertex (parsed back into (source,label,target) triples: the edges of all reachable vertices, each exactly once), Debug, Display, v_print(v); plus wide shapes on Sodg<16>",
         },
